@@ -6,6 +6,7 @@ The proofs case-split on the decisions of the hand model and let `simp` evaluate
 they depend on what the source computes, not on how it spells it.
 -/
 import TonVerif.Generated.CellCtor
+import TonVerif.Model.CellCtorView
 import TonVerif.Proofs.SrcObj
 import TonVerif.Proofs.SrcArith
 
@@ -160,9 +161,10 @@ theorem calculate_hashes_eq (H : Bytes → Bytes) (mask : Nat) (kind : Int) (ref
       all_goals cell_tail refs li
 
 /-- THE TIE: the regenerated `Cell.__init__` equals the hand model's constructor, for ALL cell types, bit strings and lists of
-child infos (same decision to raise, and the same level mask, per-level hashes and depths on success). -/
+child infos: the same decision to raise, and on success the same level mask, per-level hashes and depths, `_hash` = the model's
+`CellInfo.hash`, `_descriptors` = the model's descriptor bytes, `_data_bytes` = the model's padded data. -/
 theorem src_construct_eq_model (H : Bytes → Bytes) (kind : Int) (bits : Bits) (refs : List CellInfo) :
-    init H bits refs kind = construct H kind bits refs := by
+    init H bits refs kind = (construct H kind bits refs).map CtorOut.ofModel := by
   unfold init NullCell_init construct
   simp only [Option.bind_some, resolve_mask_eq]
   cases resolveMask kind bits refs with
@@ -172,7 +174,21 @@ theorem src_construct_eq_model (H : Bytes → Bytes) (kind : Int) (bits : Bits) 
     have hex : decide (kind ≠ -1) = (kind != kOrdinary) := by by_cases h : kind = -1 <;> simp [h, kOrdinary]
     rw [hex]
     generalize List.foldlM (hashStep H kind bits refs mask _) _ _ = r
-    cases r <;> simp
+    cases r with
+    | none => simp
+    | some st =>
+      cases hd : descriptors refs.length (kind != kOrdinary) bits.length mask with
+      | none => simp
+      | some d =>
+        cases hl : st.hashes.getLast? with
+        | none => simp [hl]
+        | some h => simp [CtorOut.ofModel, CellInfo.hash, hd, hl]
+
+/-- the `CellInfo` of the regenerated constructor's result is the hand model's result -/
+theorem src_construct_info (H : Bytes → Bytes) (kind : Int) (bits : Bits) (refs : List CellInfo) :
+    (init H bits refs kind).map CtorOut.toInfo = construct H kind bits refs := by
+  rw [src_construct_eq_model]
+  cases construct H kind bits refs <;> simp [CtorOut.ofModel, CtorOut.toInfo]
 
 /-! ### whole trees: the regenerated constructor applied bottom-up -/
 
@@ -181,7 +197,7 @@ mutual
   def srcInfo (H : Bytes → Bytes) : Cell → Option CellInfo
     | .mk kind bits refs => do
       let rs ← srcInfos H refs
-      init H bits rs kind
+      (init H bits rs kind).map CtorOut.toInfo
   def srcInfos (H : Bytes → Bytes) : List Cell → Option (List CellInfo)
     | [] => some []
     | c :: cs => do
@@ -194,7 +210,7 @@ mutual
   theorem srcInfo_eq (H : Bytes → Bytes) : ∀ c : Cell, srcInfo H c = Cell.info H c
     | .mk kind bits refs => by
       rw [srcInfo, Cell.info, srcInfos_eq H refs]
-      simp only [src_construct_eq_model]
+      simp only [src_construct_info]
   theorem srcInfos_eq (H : Bytes → Bytes) : ∀ cs : List Cell, srcInfos H cs = Cell.infos H cs
     | [] => by rw [srcInfos, Cell.infos]
     | c :: cs => by rw [srcInfos, Cell.infos, srcInfo_eq H c, srcInfos_eq H cs]
